@@ -135,6 +135,8 @@ func schemaOps(seed int64, n int, outDir string, streams string, replay string) 
 				groupObjects(s, g)
 			case "corrupt":
 				groupCorrupt(s, g)
+			case "history":
+				groupHistory(s, g)
 			}
 		}
 	}
